@@ -103,9 +103,29 @@ def run(ctx):
                         if bad:
                             kinds = sorted({kind1 if k[1] in ("x", "Z") else kind2 for k, _, _ in bad})
                             ctx.violation(f"value-differs:{'+'.join(kinds)}", case, f"{text!r}: {bad[:3]}")
+                        # the Config object is edited in place through its section objects AFTER a conversion (what postprocess_config and
+                        # the CLI do): the next conversion reflects the edit
+                        try:
+                            obj = c
+                            for part in secs[0].split("."):
+                                obj = obj[part]
+                            obj["x"] = "EDITED"
+                            obj["w"] = "NEW"
+                            now = flatten(c)
+                            after3 = flatten(Config(config_dict=c.get_config_dict()))
+                        except Exception as e:  # noqa: BLE001
+                            ctx.violation(f"roundtrip-after-edit-raises:{type(e).__name__}", case, f"{text!r}: {e!r}")
+                            continue
+                        if after3 != now:
+                            ctx.violation("roundtrip-stale-after-in-place-edit", case,
+                                          f"{text!r}: converted once, then [{secs[0]}] x and w set through the section object: the next "
+                                          f"get_config_dict() round trip differs at {sorted(k for k in set(now) | set(after3) if now.get(k) != after3.get(k))[:4]}")
                     # replace_config_dir: reading the rewritten dict back gives the original effective values with the local config dir, and
                     # only it, replaced
                     combo_sig = f"dir={'default' if cfg_env is None else cfg_env}:to={repl}"
+                    if ci == 0:
+                        c = Config()
+                        c.read_string(text)  # a fresh object: the one above was edited
                     try:
                         d2 = c.get_config_dict(replace_config_dir=repl)
                         after2 = flatten(Config(config_dict=d2))
@@ -127,7 +147,8 @@ def run(ctx):
         "evaluations": n, "distinct_nontrivial": len(distinct), "config_dir_combinations": len(combos), "exhaustive": True,
         "rule": "INI texts the loader accepts: every subset of <=3 sections from {a, c.d, c.e, scheduler, x.y.z} x pairs of value kinds "
         "(plain, number, empty, escaped dollars, cross-section interpolation, percent, config-dir paths, ':' '=' '#', spaces, unicode); oracle: "
-        "Config(config_dict=c.get_config_dict()) has the same (section path, key) set and the same effective values; with replace_config_dir, for 6 "
+        "Config(config_dict=c.get_config_dict()) has the same (section path, key) set and the same effective values, also after the object "
+        "was converted once and then edited in place through a section object; with replace_config_dir, for 6 "
         "(configured local dir, replacement) combinations (default; a literal '$' in either; trailing slash; './' segment; replacement containing the "
         "dir): reading the rewritten dict back gives the original effective values with exactly the configured dir replaced; distinct = (section "
         "set, value kinds, combination)",
